@@ -3,6 +3,8 @@ mod c03;
 mod c08;
 mod c11;
 mod c13;
+mod c17;
+mod c20;
 mod common;
 mod progs;
 mod wgpucheck;
@@ -37,6 +39,9 @@ fn main() {
         "C08" => c08::run(tier),
         "C11" => c11::run(tier),
         "C13" => c13::run(tier),
+        "C17" => c17::run(tier),
+        "C20" => c20::run(tier),
+        "c20-child" => c20::child(tier, args[3].parse().unwrap()),
         other => {
             eprintln!("unknown property {other}");
             2
